@@ -104,11 +104,13 @@ Lemma witness_client_chain_view :
 Proof. eexists. split; [vm_compute; reflexivity|vm_compute; discriminate]. Qed.
 
 (* 5. DHE_DSS: the client stores the server's chain, the server's own session does not *)
-Lemma witness_server_chain_view :
-  exists o, negotiate (client_of (with_versions D 1 3 [3; 2; 1] (st_macs D)) 0 None None)
-                      (server_of D (Some dsa2048) false false None) = Ok o /\
-            vw_server_chain (oc_client o) <> vw_server_chain (oc_server o).
-Proof. eexists. split; [vm_compute; reflexivity|vm_compute; discriminate]. Qed.
+Lemma witness_server_chain_view : refuted_unless fix_dhe_dsa_chain
+  (exists o, negotiate (client_of (with_versions D 1 3 [3; 2; 1] (st_macs D)) 0 None None)
+                       (server_of D (Some dsa2048) false false None) = Ok o /\
+             vw_server_chain (oc_client o) <> vw_server_chain (oc_server o)).
+Proof.
+  by_flag fix_dhe_dsa_chain ltac:(eexists; split; [vm_compute; reflexivity|vm_compute; discriminate]).
+Qed.
 
 (* 6. a handshake that ends without any alert: settings that validate() accepts (DSA hashes only, TLS 1.3
       only) leave no signature algorithm to advertise and the client dies on `assert sig_list` *)
@@ -139,11 +141,12 @@ Proof.
   exists cl_rsa1024, (server_of D (Some rsa2048) false false None). exact witness_client_chain_view.
 Qed.
 
-Lemma views_agree_refuted_server_chain_pf :
-  exists c s o, negotiate c s = Ok o /\ vw_server_chain (oc_client o) <> vw_server_chain (oc_server o).
+Lemma views_agree_refuted_server_chain_pf : refuted_unless fix_dhe_dsa_chain
+  (exists c s o, negotiate c s = Ok o /\ vw_server_chain (oc_client o) <> vw_server_chain (oc_server o)).
 Proof.
+  pose proof witness_server_chain_view as W. unfold refuted_unless in *. destruct fix_dhe_dsa_chain; [exact I|].
   exists (client_of (with_versions D 1 3 [3; 2; 1] (st_macs D)) 0 None None), (server_of D (Some dsa2048) false false None).
-  exact witness_server_chain_view.
+  exact W.
 Qed.
 
 Lemma exporter_agrees_pf : forall prf10 prf12 hkdf c s o label len, negotiate c s = Ok o ->
